@@ -385,22 +385,36 @@ class LieselCfg:
             sd = lsl.Calc(jnp.sqrt, s2)
             y = lsl.obs(jnp.zeros(self.n, jnp.float32), lsl.Dist(tfd.Normal, loc=mu, scale=sd), name="y")
             return lsl.GraphBuilder().add(y).build_model()
-        if self.which == "smooth":
+        if self.which in ("smooth", "smoothrd"):
             self.n, self.q = 8, 3
             self.Z = r.normal(size=(self.n, self.q)).astype(np.float32) * 0.8
             A = r.normal(size=(self.q, self.q))
             self.K = (A @ A.T / self.q + 0.5 * np.eye(self.q)).astype(np.float32)
+            self.rank = self.q
+            if self.which == "smoothrd":
+                # rank-deficient first-order random-walk penalty (rank q-1); the constant direction, on which the
+                # degenerate normal is flat, gets a proper N(0, 2^2) prior through a weak variable with a distribution
+                D = np.diff(np.eye(self.q), axis=0)
+                self.K = (D.T @ D).astype(np.float32)
+                self.rank = self.q - 1
+                self.nullv = (np.ones(self.q) / np.sqrt(self.q)).astype(np.float32)
             K_var = lsl.Var(jnp.asarray(self.K), name="K")
             a_var = lsl.Var(jnp.asarray(3.0, jnp.float32), name="a")
             b_var = lsl.Var(jnp.asarray(2.0, jnp.float32), name="b")
-            rank_var = lsl.Var(self.q, name="rank")
+            rank_var = lsl.Var(self.rank, name="rank")
             tau2 = lsl.param(jnp.asarray(1.0, jnp.float32), lsl.Dist(tfd.InverseGamma, concentration=a_var, scale=b_var), name="tau2")
             b2 = lsl.param(jnp.zeros(self.q, jnp.float32),
                            lsl.Dist(MultivariateNormalDegenerate.from_penalty, loc=0.0, var=tau2, pen=K_var, rank=rank_var), name="b2")
             self.grp = lsl.Group("smooth", beta=b2, tau2=tau2, rank=rank_var, K=K_var, a=a_var, b=b_var)
             mu = lsl.Var(lsl.Calc(lambda b: jnp.asarray(self.Z) @ b, b2), name="mu")
             y = lsl.obs(jnp.zeros(self.n, jnp.float32), lsl.Dist(tfd.Normal, loc=mu, scale=1.0), name="y")
-            return lsl.GraphBuilder().add(y).add_groups(self.grp).build_model()
+            gb = lsl.GraphBuilder().add(y).add_groups(self.grp)
+            if self.which == "smoothrd":
+                lvl = lsl.Var(lsl.Calc(lambda b: jnp.sum(jnp.asarray(self.nullv) * b), b2),
+                              lsl.Dist(tfd.Normal, loc=0.0, scale=2.0), name="level")
+                lvl.parameter = True
+                gb.add(lvl)
+            return gb.build_model()
         if self.which == "bounded":
             # x ~ Uniform(0, upper) with the *default* (parameter-dependent) bijector Sigmoid(0, upper); upper itself is sampled
             self.n = 3
@@ -428,10 +442,16 @@ class LieselCfg:
             s2 = 2.0 / rng.gamma(3.0, size=N)
             y = beta @ self.X.T + np.sqrt(s2)[:, None] * rng.normal(size=(N, self.n))
             return {"beta": beta, "sigma2_transformed": np.log(s2)}, {"y": y}
-        if self.which == "smooth":
+        if self.which in ("smooth", "smoothrd"):
             tau2 = 2.0 / rng.gamma(3.0, size=N)
-            L = np.linalg.cholesky(np.linalg.inv(self.K.astype(np.float64)))
-            b2 = (rng.normal(size=(N, self.q)) @ L.T) * np.sqrt(tau2)[:, None]
+            if self.which == "smoothrd":
+                lam, Q = np.linalg.eigh(self.K.astype(np.float64))
+                Qr, lam_r = Q[:, 1:], lam[1:]
+                b2 = ((rng.normal(size=(N, self.rank)) / np.sqrt(lam_r)) @ Qr.T) * np.sqrt(tau2)[:, None] \
+                    + 2.0 * rng.normal(size=(N, 1)) * self.nullv.astype(np.float64)[None, :]
+            else:
+                L = np.linalg.cholesky(np.linalg.inv(self.K.astype(np.float64)))
+                b2 = (rng.normal(size=(N, self.q)) @ L.T) * np.sqrt(tau2)[:, None]
             y = b2 @ self.Z.T + rng.normal(size=(N, self.n))
             return {"b2": b2, "tau2": tau2}, {"y": y}
         if self.which == "bounded":
@@ -477,7 +497,7 @@ class LieselCfg:
                     return gs.MHProposal({"sigma2_transformed": xp}, -0.5 * ((x - mb) / s) ** 2 + 0.5 * ((xp - mf) / s) ** 2)
                 return [gs.HMCKernel(["beta"], initial_step_size=0.3, initial_inverse_mass_matrix=jnp.ones(2), num_integration_steps=3),
                         gs.MHKernel(["sigma2_transformed"], prop, initial_step_size=0.7)]
-        if self.which == "smooth":
+        if self.which in ("smooth", "smoothrd"):
             first = gs.IWLSKernel(["b2"], initial_step_size=1.0) if self.kern == "iwls+tau2" else \
                 gs.NUTSKernel(["b2"], initial_step_size=0.35, initial_inverse_mass_matrix=jnp.ones(self.q), max_treedepth=4)
             return [first, lsl.tau2_gibbs_kernel(self.grp)]
@@ -527,7 +547,7 @@ class LieselCfg:
             return {"b0": b[:, 0], "b1": b[:, 1], "logs2": t, "b0^2": b[:, 0] ** 2, "b1^2": b[:, 1] ** 2, "logs2^2": t ** 2,
                     "b0*b1": b[:, 0] * b[:, 1], "b1*logs2": b[:, 1] * t, "s2": np.minimum(s2, 50), "b0*ybar": b[:, 0] * y.mean(axis=1),
                     "logs2*sy": t * y.std(axis=1), "loglik": ll}
-        if self.which == "smooth":
+        if self.which in ("smooth", "smoothrd"):
             b, t2 = th["b2"], th["tau2"]
             lt = np.log(t2)
             res_ = y - b @ self.Z.T
@@ -547,7 +567,7 @@ class LieselCfg:
     def prior_cdfs(self):
         if self.which == "linreg":
             return {"beta": lambda x: sst.norm.cdf(x, 0, 2.0), "sigma2_transformed": lambda x: sst.invgamma.cdf(np.exp(x), 3.0, scale=2.0)}
-        if self.which == "smooth":
+        if self.which in ("smooth", "smoothrd"):
             return {"tau2": lambda x: sst.invgamma.cdf(x, 3.0, scale=2.0)}
         if self.which == "bounded":
             return {"upper_transformed": lambda x: sst.norm.cdf(x, 0.3, 0.4), "x_transformed": lambda x: sst.logistic.cdf(x)}
@@ -558,7 +578,7 @@ class LieselCfg:
             return {"upper_transformed": 0.4, "x_transformed": 1.8}
         if self.which == "linreg":
             return {"beta": 2.0, "sigma2_transformed": 0.6}
-        if self.which == "smooth":
+        if self.which in ("smooth", "smoothrd"):
             return {"b2": 1.0, "tau2": 1.0}
         return {"m": 1.5, "k": 0.75}
 
@@ -578,6 +598,7 @@ def all_configs():
         cfgs[f"liesel-linreg/{k}"] = lambda k=k: LieselCfg(f"liesel-linreg/{k}", "linreg", k)
     for k in ("iwls+tau2", "nuts+tau2"):
         cfgs[f"liesel-smooth/{k}"] = lambda k=k: LieselCfg(f"liesel-smooth/{k}", "smooth", k)
+        cfgs[f"liesel-smooth-rankdef/{k}"] = lambda k=k: LieselCfg(f"liesel-smooth-rankdef/{k}", "smoothrd", k)
     for k in ("nuts+rw", "rw+iwls"):
         cfgs[f"liesel-bounded/{k}"] = lambda k=k: LieselCfg(f"liesel-bounded/{k}", "bounded", k)
     for k in ("gibbs+rw", "gibbs+iwls_user"):
@@ -589,7 +610,7 @@ def all_configs():
 
 QUICK = ["liesel-bounded/nuts+rw", "nig-original-scale/gibbs+rw", "two-blocks/rw+rw", "normal-normal/rw", "normal-normal/mh_asym", "normal-normal/gibbs", "mean-logscale/rw+hmc", "mean-logscale/nuts_joint",
          "mean-logscale/iwls_joint", "logit/iwls", "pois/iwls_user", "liesel-linreg/nuts+rw", "liesel-linreg/iwls+gibbs",
-         "liesel-smooth/iwls+tau2", "liesel-mixture/disc+nuts"]
+         "liesel-smooth/iwls+tau2", "liesel-smooth-rankdef/nuts+tau2", "liesel-mixture/disc+nuts"]
 
 
 def run_case(case):
